@@ -239,6 +239,7 @@ func c03r3(r *R) {
 type bufWrite struct {
 	I     ssa.Instruction
 	Text  string   // constant text or Sprintf format
+	Vals  []ssa.Value // Sprintf args as values
 	Args  []string // Sprintf args
 	Types []string // static types of the Sprintf args
 	Byte  string   // WriteByte operand
@@ -263,11 +264,29 @@ func marshalWrites(c *Ctx, m *ssa.Function) []bufWrite {
 				f, _ := constString(sp.Call.Args[0])
 				w := bufWrite{I: i, Text: f}
 				for _, e := range variadicElems(sp.Call.Args[1]) {
+					w.Vals = append(w.Vals, unwrapIface(e))
 					w.Args = append(w.Args, c.Expr(e))
 					w.Types = append(w.Types, typeName(unwrapIface(e).Type()))
 				}
 				out = append(out, w)
 				return
+			}
+			// a decimal number through strconv is the same text as %d
+			if sp, ok := a.(*ssa.Call); ok {
+				switch calleeName(&sp.Call) {
+				case "strconv.Itoa":
+					out = append(out, bufWrite{I: i, Text: "%d", Vals: []ssa.Value{sp.Call.Args[0]}, Args: []string{c.Expr(sp.Call.Args[0])}, Types: []string{typeName(sp.Call.Args[0].Type())}})
+					return
+				case "strconv.FormatUint", "strconv.FormatInt":
+					if base, ok := constInt(sp.Call.Args[1]); ok && base == 10 {
+						v := sp.Call.Args[0]
+						if cv, ok := v.(*ssa.Convert); ok && convPreserves(cv) {
+							v = cv.X
+						}
+						out = append(out, bufWrite{I: i, Text: "%d", Vals: []ssa.Value{v}, Args: []string{c.Expr(v)}, Types: []string{typeName(v.Type())}})
+						return
+					}
+				}
 			}
 			out = append(out, bufWrite{I: i, Text: "?" + c.Expr(a)})
 		case "fmt.Fprintf":
@@ -283,11 +302,16 @@ func marshalWrites(c *Ctx, m *ssa.Function) []bufWrite {
 			}
 			w := bufWrite{I: i, Text: f}
 			for _, e := range variadicElems(call.Call.Args[2]) {
+				w.Vals = append(w.Vals, unwrapIface(e))
 				w.Args = append(w.Args, c.Expr(e))
 				w.Types = append(w.Types, typeName(unwrapIface(e).Type()))
 			}
 			out = append(out, w)
 		case "(*bytes.Buffer).WriteByte":
+			if k, ok := constInt(call.Call.Args[1]); ok && k >= 32 && k < 127 {
+				out = append(out, bufWrite{I: i, Text: string(rune(k)), Const: true}) // WriteByte(';') is WriteString(";")
+				return
+			}
 			out = append(out, bufWrite{I: i, Byte: c.Expr(call.Call.Args[1])})
 		case "(*bytes.Buffer).Write", "(*bytes.Buffer).WriteRune", "fmt.Fprint", "fmt.Fprintln":
 			out = append(out, bufWrite{I: i, Text: "?" + shortInstr(i)})
@@ -305,27 +329,68 @@ func c03r4(r *R) {
 	// every write, as atoms (see outlang.go)
 	atomsOf := map[ssa.Instruction][]olAtom{}
 	var atoms []olAtom
+	var digitCases []olAtom // the cases of digits chosen by a phi, with their own conditions
 	for _, w := range ws {
 		var as []olAtom
 		switch {
 		case strings.HasPrefix(w.Text, "?"):
 			o.AtI(w.I).Fail("output write of unknown shape: %s", w.Text)
-			as = []olAtom{{"?write", w.I}}
+			as = []olAtom{{Sym: "?write", I: w.I}}
 		case w.Byte != "":
-			as = []olAtom{{"byte(" + w.Byte + ")", w.I}}
+			as = []olAtom{{Sym: "byte(" + w.Byte + ")", I: w.I}}
 		case w.Const:
 			for k := 0; k < len(w.Text); k++ {
-				as = append(as, olAtom{"'" + w.Text[k:k+1] + "'", w.I})
+				as = append(as, olAtom{Sym: "'" + w.Text[k:k+1] + "'", I: w.I})
 			}
 		default:
 			as = formatAtoms(w.I, w.Text, w.Args)
+			// a %d of a value that is one constant digit per branch (`x := 0; if c { x = 1 }`) writes that digit: one
+			// alternative per case, each under the conditions of its case
+			k := 0
+			var out2 []olAtom
+			for _, a := range as {
+				if strings.HasPrefix(a.Sym, "num(") && k < len(w.Vals) {
+					v := w.Vals[k]
+					k++
+					if _, isPhi := v.(*ssa.Phi); isPhi {
+						cases := c.valueCases(v, w.I.Block())
+						allDigits := len(cases) > 1
+						for _, vc := range cases {
+							d, ok := constInt(vc.V)
+							if _, isC := vc.V.(*ssa.Const); !ok || !isC || d < 0 || d > 9 {
+								allDigits = false
+							}
+						}
+						if allDigits {
+							alt := olAtom{Sym: a.Sym, I: w.I}
+							for _, vc := range cases {
+								d, _ := constInt(vc.V)
+								sym := "'" + string(rune('0'+d)) + "'"
+								alt.Alts = append(alt.Alts, sym)
+								digitCases = append(digitCases, olAtom{Sym: sym, I: w.I, G: vc.Guards})
+							}
+							out2 = append(out2, alt)
+							continue
+						}
+					}
+				} else if strings.HasPrefix(a.Sym, "num02(") {
+					k++
+				}
+				out2 = append(out2, a)
+			}
+			as = out2
 		}
 		for _, a := range as {
 			o.AtI(w.I).Check(!strings.HasPrefix(a.Sym, "?fmt"), "format %q uses something else than %%d / %%02d: %s", w.Text, a.Sym)
 		}
 		atomsOf[w.I] = as
-		atoms = append(atoms, as...)
+		for _, a := range as {
+			if len(a.Alts) == 0 {
+				atoms = append(atoms, a)
+			}
+		}
 	}
+	atoms = append(atoms, digitCases...)
 	idx := "(1 + phi((1 + phi@)|-1))"
 	minE := "min(builtin.len(p0.Priorities), p1)" // the if-idiom and the builtin both render so (selPhi)
 	pIdx := "p0.Priorities[" + idx + "]"
@@ -375,7 +440,12 @@ func c03r4(r *R) {
 		}
 		return out
 	}
-	gsOf := func(a olAtom) []string { return c.guardStrs(a.I.Block()) }
+	gsOf := func(a olAtom) []string {
+		if a.G != nil {
+			return a.G
+		}
+		return c.guardStrs(a.I.Block())
+	}
 	// ---- S part
 	oS := r.Ob("C03.R4", "settings-part").At(m.Pos())
 	setW := append(find(symSId), find(symSVal)...)
